@@ -16,6 +16,12 @@ MARGINS = {
     "cgmy02": ("CGMY", dict(c=0.5, g=15.0, m=20.0, y=0.2)),
     "vg": ("VG", {}),
 }
+# margins used only where a world asks for them by name (not drawn by generate_process: the other checks' streams stay put):
+# strongly skewed infinite-variation margins, whose default grid has a long left and a short right half-axis
+EXTRA_MARGINS = {
+    "cgmy11_a": ("CGMY", dict(c=0.04945, g=3.0, m=15.0, y=1.1)),
+    "cgmy11_b": ("CGMY", dict(c=0.04945, g=3.5, m=14.0, y=1.1)),
+}
 ND_METHODS = {"adaptednd": "BINARYSEARCHTREEADAPTED", "inversion": "INVERSION"}
 
 
@@ -29,7 +35,7 @@ def build_copula_process(spec):
 
     models = []
     for name in spec["margins"]:
-        mt, kw = MARGINS[name]
+        mt, kw = MARGINS[name] if name in MARGINS else EXTRA_MARGINS[name]
         models.append(create_exponential_of_levy_model(ModelType[mt])(**kw))
     cop = spec["copula"]
     copula = create_independent_copula() if cop["kind"] == "independent" else create_clayton_copula(theta=cop["theta"], eta=cop["eta"])
@@ -208,6 +214,12 @@ def execute(wd, sc):
                                 {"u": u, "first": list(table[u][0]), "now": list(st), "op": oi, "lineage": lineage[ci]})
                     else:
                         table[u] = (st, ci)
+            elif kind == "reset_cost":
+                ci = op[1] % len(samplers)
+                if hasattr(samplers[ci], "reset_sampling_cost"):
+                    samplers[ci].reset_sampling_cost()
+                    wd.probes["c02.cost_reset_between_draws"] += 1
+                    wd.faults["history.cost_reset"] += 1
             elif kind == "pickle":
                 ci = op[1] % len(samplers)
                 samplers.append(simpool._loads(simpool._dumps(samplers[ci])))
